@@ -144,3 +144,23 @@ def first_span(path, kinds=('MacVerify',)):
         if e[0] in kinds:
             return core.rel(e[-1])
     return ''
+
+
+def setup_public_key(ctx, sn, setup=Sym('setup')):
+    """the term returned by the public accessor chain `setup.keypair().public()` (name-free link to 'the setup's public key')"""
+    s1 = ctx.summary(sn, 'opaque_ke::ServerSetup::<CS, S>::keypair', params=[setup])
+    if len(s1.paths) != 1:
+        return None
+    kp = s1.paths[0].value
+    s2 = ctx.summary(sn, 'opaque_ke::keypair::KeyPair::<KG, S>::public', params=[kp])
+    if len(s2.paths) != 1:
+        return None
+    return s2.paths[0].value
+
+
+def rng_terms(t):
+    return subterms(t, lambda x: x[0] == 'app' and x[1] == 'Rng')
+
+
+def is_rng_draw(t, rng=Sym('rng')):
+    return t is not None and t[0] == 'app' and t[1] == 'Rng' and t[2][0] == rng
